@@ -104,8 +104,8 @@ package alpine
 //@   requires wfRange(vr)
 //@   ensures and: result == (forall i int :: 0 <= i && i < len(vr.constraints) ==> satisfiesConstraint(version, vr.constraints[i], theEcosystem()))   [C02 C20]
 
-//@ lemma c20-equal [C20]: forall c *constraint, v1, v2 *Version, ecosystem *Ecosystem :: trigger(satisfiesConstraint(v1, c, ecosystem), satisfiesConstraint(v2, c, ecosystem)) && c != nil && ecosystem != nil && v1 != nil && v2 != nil && (c.operator == "=" || c.operator == "!=" || c.operator == "<" || c.operator == "<=" || c.operator == ">" || c.operator == ">=") && v1.Compare(v2) == 0 ==> satisfiesConstraint(v1, c, ecosystem) == satisfiesConstraint(v2, c, ecosystem)
-//@ lemma c20-convex [C20]: forall c *constraint, a, b, d *Version, ecosystem *Ecosystem :: trigger(satisfiesConstraint(a, c, ecosystem), satisfiesConstraint(d, c, ecosystem), a.Compare(b), b.Compare(d)) && c != nil && ecosystem != nil && a != nil && b != nil && d != nil && (c.operator == "=" || c.operator == "!=" || c.operator == "<" || c.operator == "<=" || c.operator == ">" || c.operator == ">=") && c.operator != "!=" && a.Compare(b) <= 0 && b.Compare(d) <= 0 && satisfiesConstraint(a, c, ecosystem) && satisfiesConstraint(d, c, ecosystem) ==> satisfiesConstraint(b, c, ecosystem)
+//@ lemma c20-equal [C20]: forall c *constraint, v1, v2 *Version, ecosystem *Ecosystem :: trigger(satisfiesConstraint(v1, c, ecosystem), satisfiesConstraint(v2, c, ecosystem)) && c != nil && ecosystem != nil && v1 != nil && v2 != nil && wf(v1) && wf(v2) && (ecosystem.NewVersion(c.version).1 == nil ==> wf(ecosystem.NewVersion(c.version).0)) && (c.operator == "=" || c.operator == "!=" || c.operator == "<" || c.operator == "<=" || c.operator == ">" || c.operator == ">=") && v1.Compare(v2) == 0 ==> satisfiesConstraint(v1, c, ecosystem) == satisfiesConstraint(v2, c, ecosystem)
+//@ lemma c20-convex [C20]: forall c *constraint, a, b, d *Version, ecosystem *Ecosystem :: trigger(satisfiesConstraint(a, c, ecosystem), satisfiesConstraint(d, c, ecosystem), a.Compare(b), b.Compare(d)) && c != nil && ecosystem != nil && a != nil && b != nil && d != nil && wf(a) && wf(b) && wf(d) && (ecosystem.NewVersion(c.version).1 == nil ==> wf(ecosystem.NewVersion(c.version).0)) && (c.operator == "=" || c.operator == "!=" || c.operator == "<" || c.operator == "<=" || c.operator == ">" || c.operator == ">=") && c.operator != "!=" && a.Compare(b) <= 0 && b.Compare(d) <= 0 && satisfiesConstraint(a, c, ecosystem) && satisfiesConstraint(d, c, ecosystem) ==> satisfiesConstraint(b, c, ecosystem)
 
 // ---- range text to constraints (C02): an operator directly before a valid version; the list separator means AND
 
@@ -138,6 +138,6 @@ package alpine
 
 // lifting to whole ranges: an AND-range of comparator constraints treats versions that compare equal alike (the two
 // quantified sides are what Contains returns for v1 and v2, by its `and` clause)
-//@ lemma c20-range-equal [C20] uses c20-equal: forall vr *VersionRange, v1, v2 *Version, ecosystem *Ecosystem :: vr != nil && v1 != nil && v2 != nil && wfRange(vr) && ecosystem != nil && (forall i int :: 0 <= i && i < len(vr.constraints) ==> (vr.constraints[i].operator == "=" || vr.constraints[i].operator == "!=" || vr.constraints[i].operator == "<" || vr.constraints[i].operator == "<=" || vr.constraints[i].operator == ">" || vr.constraints[i].operator == ">=")) && v1.Compare(v2) == 0 ==> ((forall i int :: 0 <= i && i < len(vr.constraints) ==> satisfiesConstraint(v1, vr.constraints[i], theEcosystem())) == (forall i int :: 0 <= i && i < len(vr.constraints) ==> satisfiesConstraint(v2, vr.constraints[i], theEcosystem())))
+//@ lemma c20-range-equal [C20] uses c20-equal: forall vr *VersionRange, v1, v2 *Version, ecosystem *Ecosystem :: vr != nil && v1 != nil && v2 != nil && wfRange(vr) && ecosystem != nil && wf(v1) && wf(v2) && (forall i int :: 0 <= i && i < len(vr.constraints) ==> (theEcosystem().NewVersion(vr.constraints[i].version).1 == nil ==> wf(theEcosystem().NewVersion(vr.constraints[i].version).0)) && (vr.constraints[i].operator == "=" || vr.constraints[i].operator == "!=" || vr.constraints[i].operator == "<" || vr.constraints[i].operator == "<=" || vr.constraints[i].operator == ">" || vr.constraints[i].operator == ">=")) && v1.Compare(v2) == 0 ==> ((forall i int :: 0 <= i && i < len(vr.constraints) ==> satisfiesConstraint(v1, vr.constraints[i], theEcosystem())) == (forall i int :: 0 <= i && i < len(vr.constraints) ==> satisfiesConstraint(v2, vr.constraints[i], theEcosystem())))
 // ... and the set a range without != accepts is convex in the order
-//@ lemma c20-range-convex [C20] uses c20-convex: forall vr *VersionRange, a, b, d *Version, ecosystem *Ecosystem :: vr != nil && a != nil && b != nil && d != nil && wfRange(vr) && ecosystem != nil && (forall i int :: 0 <= i && i < len(vr.constraints) ==> (vr.constraints[i].operator == "=" || vr.constraints[i].operator == "!=" || vr.constraints[i].operator == "<" || vr.constraints[i].operator == "<=" || vr.constraints[i].operator == ">" || vr.constraints[i].operator == ">=") && vr.constraints[i].operator != "!=") && a.Compare(b) <= 0 && b.Compare(d) <= 0 && (forall i int :: 0 <= i && i < len(vr.constraints) ==> satisfiesConstraint(a, vr.constraints[i], theEcosystem())) && (forall i int :: 0 <= i && i < len(vr.constraints) ==> satisfiesConstraint(d, vr.constraints[i], theEcosystem())) ==> (forall i int :: 0 <= i && i < len(vr.constraints) ==> satisfiesConstraint(b, vr.constraints[i], theEcosystem()))
+//@ lemma c20-range-convex [C20] uses c20-convex: forall vr *VersionRange, a, b, d *Version, ecosystem *Ecosystem :: vr != nil && a != nil && b != nil && d != nil && wfRange(vr) && ecosystem != nil && wf(a) && wf(b) && wf(d) && (forall i int :: 0 <= i && i < len(vr.constraints) ==> (theEcosystem().NewVersion(vr.constraints[i].version).1 == nil ==> wf(theEcosystem().NewVersion(vr.constraints[i].version).0)) && (vr.constraints[i].operator == "=" || vr.constraints[i].operator == "!=" || vr.constraints[i].operator == "<" || vr.constraints[i].operator == "<=" || vr.constraints[i].operator == ">" || vr.constraints[i].operator == ">=") && vr.constraints[i].operator != "!=") && a.Compare(b) <= 0 && b.Compare(d) <= 0 && (forall i int :: 0 <= i && i < len(vr.constraints) ==> satisfiesConstraint(a, vr.constraints[i], theEcosystem())) && (forall i int :: 0 <= i && i < len(vr.constraints) ==> satisfiesConstraint(d, vr.constraints[i], theEcosystem())) ==> (forall i int :: 0 <= i && i < len(vr.constraints) ==> satisfiesConstraint(b, vr.constraints[i], theEcosystem()))
